@@ -562,7 +562,8 @@ fn cmd_replay(path: &Path, verify: bool) -> i32 {
             !c.status().map(|s| s.success()).unwrap_or(true)
         } else {
             let exe = std::env::current_exe().unwrap();
-            Command::new(exe).args(["probe", scn_name, &idx, "1", &ms]).status().map(|s| s.code().is_none()).unwrap_or(false)
+            let cnt = j["run_count"].as_u64().unwrap_or(1).to_string();
+            Command::new(exe).args(["probe", scn_name, &idx, &cnt, &ms]).status().map(|s| s.code().is_none()).unwrap_or(false)
         };
         if died_or_ub {
             if !verify {
@@ -709,7 +710,8 @@ fn isolate_death(prop: &str, tier: Tier, how: &str) -> i32 {
         let chunk = (total / 64).max(1);
         let mut lo = None;
         let mut a = 0;
-        while a < total {
+        let scan_deadline = Instant::now() + Duration::from_secs(env_u64("VERIF_BISECT_S", 240));
+        while a < total && Instant::now() < scan_deadline {
             let n = chunk.min(total - a);
             if probe_dies(&exe, s.name, a, n, seed, tier) {
                 lo = Some((a, n));
@@ -718,7 +720,9 @@ fn isolate_death(prop: &str, tier: Tier, how: &str) -> i32 {
             a += n;
         }
         let Some((mut start, mut count)) = lo else { continue };
-        while count > 1 {
+        // bisection is bounded in wall-clock time; an unfinished bisection reports the window
+        let deadline = Instant::now() + Duration::from_secs(env_u64("VERIF_BISECT_S", 240));
+        while count > 1 && Instant::now() < deadline {
             let half = count / 2;
             if probe_dies(&exe, s.name, start, half, seed, tier) {
                 count = half;
@@ -732,8 +736,8 @@ fn isolate_death(prop: &str, tier: Tier, how: &str) -> i32 {
         let path = out_root().join("replays").join(prop).join(format!("{}-{}-{}.json", sanitize(&sig), rseed, profile()));
         write_json(&path, &json!({
             "property": prop, "scenario": s.name, "profile": profile(), "signature": sig, "process_death": true,
-            "master_seed": seed, "seed": rseed, "run_index": start, "case": case,
-            "detail": format!("running this case kills the process ({how}): abort, stack overflow or failed allocation inside the library"),
+            "master_seed": seed, "seed": rseed, "run_index": start, "run_count": count, "case": case,
+            "detail": format!("running run indices {start}..{} of this scenario kills the process ({how}): abort, stack overflow or failed allocation inside the library", start + count),
         }));
         println!("VIOLATION property={prop} replay={}", path.display());
         println!("  signature: {sig}");
